@@ -125,6 +125,10 @@ def one(job):
     if a.get("select"):
         a1 = dict(base, select=a["select"])
         out.append(("infile-select", a["select"], run_variant(p, a1), run_variant(rewrite_select(p, a["select"]), base)))
+        if len(a["select"]) >= 2 and a["select"] != a["select"][::-1]:
+            # the same, after a run with the selects in the opposite order in the same build directory (the order is part of the request)
+            a0 = dict(base, select=a["select"][::-1])
+            out.append(("infile-select-after-reversed-run", a["select"], run_variant(p, a1, before=a0), run_variant(rewrite_select(p, a["select"]), base)))
     if a.get("disable"):
         a1 = dict(base, disable=a["disable"])
         out.append(("infile-disable", a["disable"], run_variant(p, a1), run_variant(rewrite_disable(p, a["disable"]), base)))
